@@ -42,6 +42,15 @@ Theorem C02_return_stops_while : forall ev body c l j st s1 v s2,
 Proof. exact o_while_return. Qed.
 Print Assumptions C02_return_stops_while.
 
+(* 遍历: after a pass that ended normally or with 继续循环 the next pass gets the NEXT (index, element) pair of the list of
+   pairs fixed when the loop started (indices 1..n in order: C02_iterate_list_order) *)
+Theorem C02_iterate_next_pair : forall body names key item tl st s2,
+  (exists v, ebind (bind_loop_vars names key item st) (fun _ sa => body sa) = OR (ONormal v) s2) \/
+  ebind (bind_loop_vars names key item st) (fun _ sa => body sa) = OR OContinue s2 ->
+  o_iter body names ((key, item) :: tl) st = o_iter body names tl s2.
+Proof. exact o_iter_next_pair. Qed.
+Print Assumptions C02_iterate_next_pair.
+
 Theorem C02_return_stops_iterate : forall body names key item tl st v s2,
   ebind (bind_loop_vars names key item st) (fun _ sa => body sa) = OR (OReturn v) s2 ->
   o_iter body names ((key, item) :: tl) st = OR (OReturn v) s2.
